@@ -77,6 +77,16 @@ func c08Gen(rng *verifsim.RNG, idx int, tier string) *Plan {
 		if rng.Bool(0.3) {
 			f.Count = 3
 		}
+		if rng.Bool(0.3) {
+			// the parked call then fails: a transmission in flight at the stop that
+			// ends in an error (or a failing sysctl read)
+			p.Class += "+fails"
+			if seam == "write" {
+				f.Err = []string{"ENETDOWN", "ENOBUFS", "EPERM"}[rng.Intn(3)]
+			} else {
+				f.Err = "fs.EIO"
+			}
+		}
 		p.Faults = append(p.Faults, f)
 		// make sure something runs into it
 		p.Actions = append(p.Actions, rsAction(f.From+1000, hostAddr(1)))
@@ -172,6 +182,30 @@ func c08Iface(info *runInfo, res *verifsim.Result, h *history, ifn string, unica
 	if live == nil {
 		return
 	}
+	// The statement speaks about an advertiser that is advertising when asked to
+	// stop: the generation must have finished initialising (its listener reads).
+	initialised := false
+	for i := range h.ev {
+		e := &h.ev[i]
+		if e.K == "read.enter" && e.If == ifn && e.Gen == live.gen && e.Seq < stopSeq {
+			initialised = true
+			break
+		}
+	}
+	if !initialised {
+		res.Probe("stop_during_initialisation")
+		return
+	}
+	// A failure that surfaced before the stop already doomed this generation (its
+	// teardown may merely still be waiting for a transmission in flight): that is
+	// C10's business, not an advertiser being asked to stop.
+	for i := range h.ev {
+		e := &h.ev[i]
+		if e.Seq < stopSeq && e.If == ifn && e.Err != "" && e.Err != "deadline" && (e.K == "write.exit" || e.K == "fwd.exit" || e.K == "read.exit") && (e.Gen == live.gen || e.K == "fwd.exit") {
+			res.Probe("failed_before_stop")
+			return
+		}
+	}
 	res.Nontrivial = true
 
 	// pending work at the stop instant?
@@ -192,7 +226,16 @@ func c08Iface(info *runInfo, res *verifsim.Result, h *history, ifn string, unica
 			finals = append(finals, w)
 		}
 	}
-	if term && !unicastOnly {
+	// the final RA's own build or transmission hit by an injected failure: it is
+	// only logged, there is nothing to count
+	finalFailed := false
+	for i := range h.ev {
+		e := &h.ev[i]
+		if e.Seq > stopSeq && e.If == ifn && e.Err != "" && e.Err != "deadline" && (e.K == "fwd.exit" || e.K == "write.exit") && isTaskGoroutine(info, e.G, ifn) {
+			finalFailed = true
+		}
+	}
+	if term && !unicastOnly && !finalFailed {
 		if len(finals) != 1 {
 			res.Violate("C08.final", fmt.Sprintf("count:%d", len(finals)), "%s: terminating (stop at %s) but %d zero-lifetime multicast RAs were sent after the stop, want exactly 1", ifn, ms(stopT), len(finals))
 		}
